@@ -657,6 +657,38 @@ func all() []scen {
 		{"link-vs-snapshot", abc, []explore.Thread{link("l1", "a", "b"), link("l2", "a", "c"), snapshotter("s")}, oracleLinksAfterRestart},
 		{"link-vs-rewrite", abc, []explore.Thread{link("l1", "a", "b"), link("l2", "c", "a"), rewriter("r")}, oracleLinksAfterRestart},
 		{"delete-vs-link", abc, []explore.Thread{deleter("del", "b"), link("l", "a", "b")}, nil},
+		// one client: drop the index, create it again under the same name, add a vector. The drop
+		// removes the arena directory once more on a goroutine of its own; whenever that runs, the
+		// vector added to the new incarnation is there after a restart
+		{"drop-recreate-add", ab, []explore.Thread{guard("client", func(w *world) {
+			w.do("client", "vdrop", "i", func() string { return errStr(w.e.VDeleteIndex("i")) })
+			w.do("client", "vcreate", "i", func() string {
+				return errStr(w.e.VCreate("i", distance.Euclidean, 2, 4, distance.Float32, "", nil, nil, nil))
+			})
+			w.do("client", "vadd", "fresh", func() string { return errStr(w.e.VAdd("i", "fresh", []float32{7, 9}, nil)) })
+			// (a snapshot: from here on the vector lives in the arena files only, not in the log)
+			w.do("client", "snapshot", "", func() string { return errStr(w.e.SaveSnapshot()) })
+		})}, func(w *world) (string, string) {
+			d, err := w.e.VGet("i", "fresh")
+			if err != nil || len(d.Vector) != 2 || d.Vector[0] != 7 || d.Vector[1] != 9 {
+				return "added-vector-wrong", fmt.Sprintf("before restart: %v %v", d.Vector, err)
+			}
+			if err := w.e.Close(); err != nil {
+				return "close-failed", err.Error()
+			}
+			opts := engine.DefaultOptions(w.dir)
+			opts.AutoSaveInterval = 0
+			e2, err := engine.Open(opts)
+			if err != nil {
+				return "open-failed-after-drop-recreate", err.Error()
+			}
+			w.e = e2
+			d, err = e2.VGet("i", "fresh")
+			if err != nil || len(d.Vector) != 2 || d.Vector[0] != 7 || d.Vector[1] != 9 {
+				return "vector-lost-after-drop-recreate", fmt.Sprintf("after Close + Open: VGet(fresh) = %v %v (added as [7 9] and acknowledged)", d.Vector, err)
+			}
+			return "", ""
+		}},
 		// one client: delete b, add b again, link a->b and b->c. The cascade of the delete runs
 		// in the background; the links made to the new b after the delete returned are not its to
 		// remove ("unless it is explicitly linked again", "a re-added id behaves as new")
